@@ -551,6 +551,19 @@ def execute(plan):
         tt, mask = evaluate(ob, fm[0])
         return tt is not None and tt == (fm[1] & mask), tt
 
+    def check_consts(s):
+        """Equality with the constants (OBDD.__eq__ accepts 0, 1, False and
+        True) must agree with the model as well."""
+        ob, fm, oi, _ = slots[s]
+        for c, val in ((0, False), (1, True), (False, False), (True, True)):
+            want = (fm == fn_const(val))
+            got = (ob == c)
+            if bool(got) != want:
+                raise Violation(
+                    'C16/J1-canonicity',
+                    'slot {} denotes {} but (slot == {!r}) is {}'.format(
+                        s, fn_json(fm), c, got))
+
     def check_pair(s, t, eqm):
         oa, fa, oia, ra = slots[s]
         ob, fb, oib, rb = slots[t]
@@ -601,6 +614,8 @@ def execute(plan):
             for t in keys:
                 if t != changed:
                     check_pair(min(changed, t), max(changed, t), eqm)
+        if changed is not None and changed in slots:
+            check_consts(changed)
         # J2 (denotation)
         mism = []
         for s in (keys if full else
